@@ -214,6 +214,25 @@ def _body_dag(data) -> Outcome:
         if fname == fail_fn:
             raise _make_exc(exc_key)
 
+    if (pick >> 11) % 2 and roots:
+        # one root argument gets a (valid) name that starts with an underscore, everywhere it is used
+        old_r = roots[(pick >> 12) % len(roots)]
+        new_r = "_" + old_r
+        prog = copy.deepcopy(prog)
+        prog["roots"] = [new_r if r == old_r else r for r in prog["roots"]]
+        for fn_ in prog["funcs"]:
+            same = [o == p_ for o, p_ in zip(fn_["orig"], fn_["params"])]
+            fn_["orig"] = [new_r if (o == old_r and sm) else o for o, sm in zip(fn_["orig"], same)]
+            fn_["params"] = [new_r if p_ == old_r else p_ for p_ in fn_["params"]]
+            for key in ("sig_defaults", "pf_defaults", "bound"):
+                fn_[key] = {(new_r if k_ == old_r else k_): v_ for k_, v_ in fn_[key].items()}
+        m = DagModel(prog)
+        roots = m.needed_roots(target)
+        kw = {r: f"V{r}" for r in roots}
+        want, executed, _, _, calls, _ = m.evaluate(target, kw)
+        if fail_fn not in executed:
+            fail_fn = executed[(pick // 7) % len(executed)]
+        out.labels.append("underscore-argument-name")
     if (pick >> 9) % 3 == 0:
         # the failing function receives its evaluated resources through `resources_variable`
         prog = copy.deepcopy(prog)
